@@ -281,3 +281,43 @@ func camelKeys(m map[string]interface{}) map[string]interface{} {
 	}
 	return out
 }
+
+// reducedByOmissions returns the request without its biases and without the criteria the response reports as omitted
+// (criteria list, weights, per-level thresholds, alternatives' values): the request the method actually evaluated.
+func reducedByOmissions(req M, resp *Response) M {
+	om := map[string]bool{}
+	for _, b := range resp.Biases {
+		for _, o := range asL(asM(b["props"])["omittedCriteria"]) {
+			om[asS(asM(o)["id"])] = true
+		}
+	}
+	r := asM(deepCopy(req))
+	delete(r, "biases")
+	if len(om) == 0 {
+		return M(r)
+	}
+	var kept []interface{}
+	for _, cr := range asL(r["criteria"]) {
+		if !om[asS(asM(cr)["id"])] {
+			kept = append(kept, cr)
+		}
+	}
+	r["criteria"] = kept
+	mp := asM(r["methodParameters"])
+	if w := asM(mp["weights"]); w != nil {
+		for id := range om {
+			delete(w, id)
+		}
+	}
+	for _, t := range asL(asM(mp["params"])["thresholds"]) {
+		for id := range om {
+			delete(asM(t), id)
+		}
+	}
+	for _, a := range asL(r["knownAlternatives"]) {
+		for id := range om {
+			delete(asM(asM(a)["criteria"]), id)
+		}
+	}
+	return M(r)
+}
